@@ -350,6 +350,9 @@ def run(repo, rep, tier):  # noqa: F811 -- round-5 shape rules appended to the r
     if getattr(rep, "borrowed", False):
         return
     from ..core import round5 as _r5
+    from ..core.report import Only as _O5
+    from . import c07 as _c07b
+    _c07b._r07_2(repo, _O5(rep, {"R07.2"}))
     _r5.union_guard_class(repo, rep, "R11.12")
     _r5.loop_freshness(repo, rep, "R11.11")
     rep.floor("R11.11", 13)
@@ -361,3 +364,6 @@ LEVEL_TEXT += _ADDR5B
 _ADDR5C = " R11.12: pack_union reduces every member type named in the `value.__class__ is/in (...)` guard to its runtime class with get_type_origin() first (no value's class is a generic alias, so a guard naming List[int] never matches)."
 EXPLANATION += _ADDR5C
 LEVEL_TEXT += _ADDR5C
+_ADDR5D = ' Borrowed: R07.2 (an explicit null of an Optional field with a default is stored, not dropped).'
+EXPLANATION += _ADDR5D
+LEVEL_TEXT += _ADDR5D
